@@ -37,6 +37,10 @@ def assigned_paths(stmts):
             elif isinstance(n, ast.Expr) and isinstance(n.value, ast.Call) and isinstance(n.value.func, ast.Name) \
                     and n.value.func.id == "print":
                 add("$nprinted", None)
+            if isinstance(n, ast.Call) and isinstance(n.func, ast.Attribute) and n.func.attr in ("write", "__call__") or \
+                    isinstance(n, ast.Call) and isinstance(n.func, ast.Name) and n.func.id in ("step", "__ginc__"):
+                for g_ in ("$nwrites", "$w_writer", "$w_rec1", "$w_rec2", "$nfiltered", "$nstat"):
+                    add(g_, None)
             if isinstance(n, ast.Call) and isinstance(n.func, ast.Attribute) and n.func.attr == "add_match":
                 add("$tally", None)
                 add("$tally_key", None)
@@ -97,6 +101,8 @@ class ExecS(Exec):
         for k in keys:
             vals = [s.env.get(k, _MISSING) for s in states]
             present = [v for v in vals if v is not _MISSING]
+            if len(present) < len(vals) and k.startswith("$"):
+                raise Unsupported(f"ghost variable {k} undefined on some path")
             if len(present) < len(vals):
                 # defined on some paths only: keep it usable when all defining paths agree
                 if all(v is present[0] for v in present):
@@ -475,6 +481,10 @@ class ExecS(Exec):
                 lab = s.value.args[1].value if len(s.value.args) > 1 else f"g{self.cx.ghost_count}"
                 self.oblige(f"ghost_assert.{lab}", "ghost", st, g, s)
                 st.pc.append(g)
+                return [Outcome("normal", st)]
+            if f == "__ginc__":
+                nm = "$" + s.value.args[0].value
+                st.env[nm] = st.env.get(nm, z3.IntVal(0)) + 1
                 return [Outcome("normal", st)]
             if f == "__lemma__":
                 name = s.value.args[0].value
